@@ -16,6 +16,7 @@ import Driver.C06
 import Driver.C13
 import Driver.C17
 
+import Driver.C10
 open Driver Relic.Model
 
 structure Conf where
@@ -33,6 +34,7 @@ structure Conf where
   edmap : Option C13.Ed.Env := none
   ep2map : Option C13.Ext.Env := none
   ed : Option C17.Env := none
+  fpx : Option C10.Env := none
 
 def parseCfg (toks : List String) : Conf :=
   toks.foldl (fun c t =>
@@ -66,6 +68,8 @@ def dispatch (c : Conf) (op : String) (args : List String) (got : String) : Opti
     | some e => C13.Ext.handle e op args got
     | none => none) <|> (match c.ed with
     | some e => C17.handle e c.w op args got
+    | none => none) <|> (match c.fpx with
+    | some e => C10.handle e op args got
     | none => none)
 
 def processLine (c : Conf) (line : String) : String :=
@@ -197,6 +201,19 @@ partial def loop (h : IO.FS.Stream) (out : IO.FS.Stream) (c : Conf) : IO Unit :=
       | none =>
         out.putStrLn (if got == "err" then "ok ed_param-rejected" else "FAIL S model=[] spec=[parsable ed_param] got=[" ++ got ++ "]")
         loop h out { c with ed := none }
+    | _ => out.putStrLn "skip"; loop h out c
+  else if line.startsWith "fpx_param " then
+    -- the running library reports the tower constants; their defining properties are checked here
+    match line.splitOn " => " with
+    | [_, got] =>
+      match C10.parseEnv got with
+      | some e =>
+        let bad := C10.checkParam e
+        out.putStrLn (if bad.isEmpty then "ok fpx_param" else "FAIL S model=[] spec=[" ++ String.intercalate ";" bad ++ "] got=[" ++ got ++ "]")
+        loop h out { c with fpx := some e }
+      | none =>
+        out.putStrLn (if got == "err" then "ok fpx_param-rejected" else "FAIL S model=[] spec=[parsable fpx_param] got=[" ++ got ++ "]")
+        loop h out { c with fpx := none }
     | _ => out.putStrLn "skip"; loop h out c
   else if line.startsWith "fp_param " then
     -- the running library reports the active field; the derived constants are checked here
